@@ -18,6 +18,7 @@ Definition case_wf (c : case) : Prop :=
   | CSign _ k _ _ k2 => bytes_ok k /\ bytes_ok k2
   | CWit _ _ k _ _ => bytes_ok k
   | CDerive r _ => bytes_ok r
+  | CPubDerive x _ => bytes_ok x
   | CX128 k => bytes_ok k
   | _ => True
   end.
@@ -287,6 +288,16 @@ Proof.
     rewrite firstn_app_exact, skipn_app_exact by lia. rewrite !list_eqb_refl. reflexivity.
 Qed.
 
+Lemma good_pubderive x path : good (CPubDerive x path).
+Proof.
+  laws. unfold good. cbn [model_obs]. unfold obs_pubderive.
+  destruct (kt_from_binary_cases T_xpub x) as [E|E]; rewrite E; [|split; [reflexivity|cbn [stmt]; destruct (all_soft path); reflexivity]].
+  split.
+  - destruct (derive_pub_path_cases path x) as [[q ->]| ->]; reflexivity.
+  - cbn [stmt]. unfold all_soft. destruct (forallb soft path) eqn:S; [reflexivity|].
+    rewrite (hardened_from_public_refused P LH path x S). reflexivity.
+Qed.
+
 Lemma good_bip39 e pw : good (CBip39 e pw).
 Proof.
   laws. unfold good. cbn [model_obs]. unfold obs_bip39.
@@ -361,22 +372,33 @@ Proof.
   - apply good_sign; apply H.
   - apply good_wit; exact H.
   - apply good_derive; exact H.
+  - apply good_pubderive.
   - apply good_bip39.
   - apply good_x128; exact H.
   - apply good_enc3.
   - apply good_dec3.
 Qed.
 
-Lemma known_class_none c : known_class P c = 0.
-Proof. reflexivity. Qed.
-
 (* consequently: whenever the implementation's observation equals the model's, the only way the judge can fail is the TESTED
    part (verification under another message / key, structure check of derived keys) *)
-Theorem judge_on_model c : case_wf c ->
-  judge P c (model_obs P c) = if stmt_tested c (model_obs P c) then Holds else FailsUnknown.
+Definition tested_verdict (c : case) : verdict :=
+  if stmt_tested c (model_obs P c) then Holds
+  else if known_class P c =? 0 then FailsUnknown else FailsKnown (known_class P c).
+
+Theorem judge_on_model c : case_wf c -> judge P c (model_obs P c) = tested_verdict c.
 Proof.
-  intros H. destruct (model_satisfies_stmt c H) as [A B]. unfold judge.
-  rewrite A, obs_eqb_refl, B, known_class_none. cbn [negb andb N.eqb]. reflexivity.
+  intros H. destruct (model_satisfies_stmt c H) as [A B]. unfold judge, tested_verdict.
+  rewrite A, obs_eqb_refl, B. cbn [negb andb]. reflexivity.
+Qed.
+
+(* sequences: the model of a sequence is made of the models of the steps taken alone (purity), and the judge of a sequence
+   accepts it when it accepts every step *)
+Theorem judge_seq_on_model l : Forall case_wf l ->
+  forallb (fun c => stmt_tested c (model_obs P c)) l = true -> judge_seq P l (model_seq P l) = Holds.
+Proof.
+  induction 1 as [|c l Hc _ IH]; [reflexivity|].
+  cbn [model_seq map judge_seq forallb]. intros T. apply andb_true_iff in T as [T1 T2].
+  rewrite (judge_on_model c Hc). unfold tested_verdict. rewrite T1. exact (IH T2).
 Qed.
 
 End JudgeProofs.
